@@ -170,6 +170,54 @@ def shard_fn(shard, nshards, seed, tier, exe, nhist):
         cid = "%d.%d" % (shard, i)
         cases.append((cid, cmds))
         meta[cid] = (plan, final)
+    # huge arrays (2^20 .. 2*10^7 slots): a sparse model (index -> uid) and whole-array digests instead of dumps; four histories per run
+    hugemeta = {}
+    if shard < 4:
+        n0 = [0, 1 << 20, (1 << 24) + 5, 20000000][shard]
+        cmds, sparse, L, uid, exp = ["NEW 0 1 arrx %d" % n0], {}, 0, 5000, []
+        steps = [("put", 1 << 20), ("put", (1 << 20) + (1 << 19) + 10), ("put", 17000000 if shard == 3 else (1 << 21) + 3), ("ins", 5), ("put", (1 << 24) + 1 if shard >= 2 else (1 << 22)), ("del", 3, 1 << 19), ("add",), ("put", 7)]
+        rng2 = random.Random("%d/%d/c07huge" % (seed, shard))
+        rng2.shuffle(steps)
+        for st in steps:
+            uid += 1
+            if st[0] == "put":
+                i = st[1]
+                cmds += ["NEW 1 %d int %d" % (uid, uid), "APUT 0 %d 1" % i]
+                old = sparse.get(i)
+                sparse[i] = uid
+                L = max(L, i + 1)
+                exp.append((0, [old] if old else []))
+            elif st[0] == "ins":
+                i = st[1]
+                cmds += ["NEW 1 %d int %d" % (uid, uid), "AINS 0 %d 1" % i]
+                if i < L:
+                    sparse = {(k + 1 if k >= i else k): v for k, v in sparse.items()}
+                    L += 1
+                else:
+                    L = i + 1
+                sparse[i] = uid
+                exp.append((0, []))
+            elif st[0] == "add":
+                cmds += ["NEW 1 %d int %d" % (uid, uid), "AADD 0 1"]
+                sparse[L] = uid
+                L += 1
+                exp.append((0, []))
+            else:
+                i, c = st[1], st[2]
+                cmds.append("ADEL 0 %d %d" % (i, c))
+                if i + c <= L:
+                    dels = sorted(v for k, v in sparse.items() if i <= k < i + c)
+                    sparse = {(k - c if k >= i + c else k): v for k, v in sparse.items() if not i <= k < i + c}
+                    L -= c
+                    exp.append((0, dels))
+                else:
+                    exp.append((-1, []))
+            cmds.append("ASUM 0")
+            exp[-1] = exp[-1] + (L, len(sparse), sum(sparse.values()), min(sparse) if sparse else -1, max(sparse) if sparse else -1)
+        cmds.append("PUT 0")
+        cid = "%d.huge" % shard
+        cases.append((cid, cmds))
+        hugemeta[cid] = exp
     results, crashes = core.run_script(exe, cases, tag="c07")
     cmdmap = dict(cases)
     for cr in crashes:
@@ -182,6 +230,25 @@ def shard_fn(shard, nshards, seed, tier, exe, nhist):
             sh.evaluations += 2
             if lines[0] != "= null" or lines[1] != "= null":
                 sh.violation("C07/negative-initial-size", "json_object_new_array_ext(n<0) did not return NULL: %s" % lines[:2], {"driver": "jcdrv", "script": cmdmap[cid]})
+            continue
+        if cid in hugemeta:
+            ops = [(c, l) for c, l in zip(cmdmap[cid], lines) if c.split()[0] in ("APUT", "AINS", "AADD", "ADEL", "ASUM")]
+            rep = {"driver": "jcdrv", "variant": "asan", "script": cmdmap[cid]}
+            for j, e in enumerate(hugemeta[cid]):
+                (oc, ol), (sc, sl) = ops[2 * j], ops[2 * j + 1]
+                sh.evaluations += 2
+                d = dict(x.split("=") for x in sl.split()[1:])
+                got = (int(d["len"]), int(d["nonnull"]), int(d["uidsum"]), int(d["first"]), int(d["last"]))
+                if int(ol.split()[1]) != e[0] or sorted(parse_del(ol)) != sorted(e[1]):
+                    sh.violation("C07/huge/return-or-release", "%s on a huge array returned %s, model says ret %d releases %s" % (oc, ol, e[0], e[1]), rep)
+                    break
+                if got != e[2:] or int(d["cap"]) < int(d["len"]):
+                    sh.violation("C07/huge/contents", "after %s: (len, non-null, uid sum, first, last) = %s cap %s, model %s" % (oc, got, d["cap"], e[2:]), rep)
+                    break
+                sh.count("huge_array_operations")
+            sh.cmax("max_array_length", max(e[2] for e in hugemeta[cid]))
+            if lines[-1].split()[1] != "live=0":
+                sh.violation("C07/leak", "blocks left after a huge-array history: " + lines[-1], rep)
             continue
         plan, final = meta[cid]
         cmds = cmdmap[cid]
